@@ -8,7 +8,7 @@ DURNAME = {1: "1", 2: "2", 4: "4", 8: "8", 16: "16", 32: "32"}
 ACCID = {-2: "ff", -1: "f", 0: "n", 1: "s", 2: "x"}
 
 
-def make_doc(rng, chords=True, ties="attr", grace=True, tuplets=True, meter_change=True, mrest=True, attrs_as_children=None):
+def make_doc(rng, chords=True, ties="attr", grace=True, tuplets=True, meter_change=True, mrest=True, attrs_as_children=None, repeats=False):
     nstaves = rng.choice([1, 2, 2, 3])
     beats, bt = rng.choice([(4, 4), (3, 4), (2, 4), (6, 8), (2, 2)])
     nbars = rng.randint(1, 3)
@@ -36,6 +36,13 @@ def make_doc(rng, chords=True, ties="attr", grace=True, tuplets=True, meter_chan
                        % (nid("sd"), s + 1, clefs[s][0], clefs[s][1], sig, beats, bt))
     xml.append('</staffGrp>\n</scoreDef>\n<section>')
     cur = (beats, bt)
+    rep = None
+    ending_bar = None
+    if repeats and rng.random() < 0.6:
+        i = rng.randrange(nbars)
+        rep = (i, rng.randrange(i, nbars))
+        if rng.random() < 0.5:
+            ending_bar = rep[1]
     tie_els = []
     tie_layer = {}
     last_note = {}      # (staff, layer) -> list of (id, pitch) of the last sounding event
@@ -45,8 +52,13 @@ def make_doc(rng, chords=True, ties="attr", grace=True, tuplets=True, meter_chan
             events.append({"ev": "meter", "count": cur[0], "unit": cur[1]})
             xml.append('<scoreDef meter.count="%d" meter.unit="%d"/>' % cur)
         length = Fraction(4 * cur[0], cur[1])
-        events.append({"ev": "measure", "n": str(b + 1)})
-        xml.append('<measure xml:id="%s" n="%d">' % (nid("m"), b + 1))
+        left = "rptstart" if rep is not None and rep[0] == b else ""
+        right = "rptend" if rep is not None and rep[1] == b else ""
+        if ending_bar == b:
+            events.append({"ev": "ending_start", "n": 1})
+            xml.append('<ending xml:id="%s" n="1">' % nid("e"))
+        events.append({"ev": "measure", "n": str(b + 1), "left": left, "right": right})
+        xml.append('<measure xml:id="%s" n="%d"%s%s>' % (nid("m"), b + 1, ' left="%s"' % left if left else "", ' right="%s"' % right if right else ""))
         for s in range(nstaves):
             events.append({"ev": "staff", "n": s + 1})
             xml.append('<staff xml:id="%s" n="%d">' % (nid("st"), s + 1))
@@ -139,6 +151,9 @@ def make_doc(rng, chords=True, ties="attr", grace=True, tuplets=True, meter_chan
         tie_els = []
         events.append({"ev": "endmeasure"})
         xml.append('</measure>')
+        if ending_bar == b:
+            events.append({"ev": "ending_end"})
+            xml.append('</ending>')
     xml.append('</section>\n</score></mdiv></body></music>\n</mei>\n')
 
     def note_xml(ev, in_chord=False):
@@ -171,7 +186,9 @@ def make_doc(rng, chords=True, ties="attr", grace=True, tuplets=True, meter_chan
         elif e["ev"] == "meter":
             base.update(c=e["count"], d=e["unit"])
         elif e["ev"] in ("measure",):
-            base.update(s=e["n"])
+            base.update(s=e["n"], id=e["left"], id2=e["right"])
+        elif e["ev"] == "ending_start":
+            base.update(n=e["n"])
         elif e["ev"] in ("staff", "layer"):
             base.update(n=e["n"])
         elif e["ev"] == "tuplet_start":
@@ -188,5 +205,5 @@ def make_doc(rng, chords=True, ties="attr", grace=True, tuplets=True, meter_chan
         elif e["ev"] == "tie":
             base.update(id=e["startid"], id2=e["endid"])
         norm.append(base)
-    meta = {"nstaves": nstaves, "layers": layers_of, "as_children": as_children, "meter_change": change_at is not None, "nbars": nbars}
+    meta = {"repeat": rep is not None, "ending": ending_bar is not None, "nstaves": nstaves, "layers": layers_of, "as_children": as_children, "meter_change": change_at is not None, "nbars": nbars}
     return {"events": norm, "nstaves": nstaves}, "\n".join(out), meta
